@@ -133,9 +133,9 @@ func (v *VestWorld) runViaTx(msg sdk.Msg) (res MsgResult, done bool) {
 	if h>>12&3 == 0 {
 		// too little gas: baseapp must throw away whatever the handler did before the meter ran out;
 		// with enough of it the transaction simply is the execution
-		// (the limit is taken relative to what the transaction needs, measured by a discarded run)
-		measure, _ := v.Ctx.CacheContext()
-		need := uint64(DeliverOnBranch(v.App, measure, plain).GasUsed)
+		// (the limit is taken relative to what the transaction needs, as a gas estimation reports it)
+		gi, _, _ := SimulateOnBranch(v.App, v.Ctx, plain)
+		need := gi.GasUsed
 		limit := need / 2
 		if d := gasShortfalls[h>>14%uint64(len(gasShortfalls))]; need > d+20_000 {
 			limit = need - d
@@ -146,7 +146,7 @@ func (v *VestWorld) runViaTx(msg sdk.Msg) (res MsgResult, done bool) {
 			v.takeBackAnte(signer, seq, prePub)
 			v.Tx.LowGas++
 			if r.Code == 0 {
-				if r.GasUsed > r.GasWanted {
+				if r.GasUsed > r.GasWanted && v.Tx.Strict {
 					v.txViolation("a transaction was accepted although it used more gas (%d) than its limit (%d): %s", r.GasUsed, r.GasWanted, sdk.MsgTypeURL(msg))
 				}
 				v.Tx.Delivered++
